@@ -1,1 +1,2 @@
 //! Reference models written independently of Humphrey.
+pub mod http;
